@@ -106,6 +106,13 @@ def matrix():
     for length in (1, 2, 3, 5):
         for extra in (0, 1, 4):
             yield dict(kind='fd_derivative', sub='n_not_below_len', n=length + extra, m=1, length=length, dim=length)
+    # a stencil option m that leaves the interior stencil 2 * (n // 2 + m) + 1 with no more points than the derivative order
+    # (m = 0 with odd n, negative m), on a grid that is long enough
+    for n in (1, 2, 3, 4, 5, 6, 7):
+        for m_ in (0, -1, -2):
+            if 0 < 2 * (n // 2 + m_) + 1 <= n:
+                for length in (12, 25):
+                    yield dict(kind='fd_derivative', sub='stencil_has_too_few_points', n=n, m=m_, length=length, dim=length)
     # 7. Residue
     for pole in (1, 2, 3, 4):
         for order in range(0, pole + 1):
